@@ -6,7 +6,7 @@ set -u
 SRC=$1; PID=$2; I=$3; shift 3
 D=/verif/seeded/$PID-$I
 mkdir -p $D
-cp $SRC/patch$I.diff $D/patch.diff; cp $SRC/demo$I.py $D/demo.py; cp $SRC/meta$I.json $D/agent_meta.json 2>/dev/null
+if [ "$SRC" != stored ]; then cp $SRC/patch$I.diff $D/patch.diff; cp $SRC/demo$I.py $D/demo.py; cp $SRC/meta$I.json $D/agent_meta.json 2>/dev/null; fi
 W=$(mktemp -d /var/tmp/seed.XXXXXX)
 trap 'rm -rf "$W"' EXIT
 rsync -a --exclude .git --exclude '__pycache__' --exclude _out /repo/ "$W/repo/"
@@ -29,7 +29,9 @@ import json,sys,os
 d,pid,applies,tests,dm,dc,res=sys.argv[1:8]
 am={}
 try: am=json.load(open(os.path.join(d,'agent_meta.json')))
-except Exception: pass
+except Exception:
+    try: am=json.load(open(os.path.join(d,'meta.json')))
+    except Exception: pass
 meta={'property':pid,'summary':am.get('summary'),'needs':am.get('needs'),'files':am.get('files'),
       'confirmed':{'applies':applies=='yes','existing_tests':tests,'demo_exit_with_patch':int(dm),'demo_exit_clean':int(dc)},
       'ran':'tools/eval_seeded.sh: patch applied to a scratch copy of /repo (never to /repo), pinned pytest suite, demo on patched and clean copy, then the listed checks with VERIF_REPO=<scratch>',
